@@ -1,5 +1,5 @@
 """A1 queries: dominating branch conditions, closure environments, iterator-chain sources."""
-from .exprs import ExprBuilder, short_callee, leaf_name, show, walk, TRANSPARENT
+from .exprs import ExprBuilder, short_callee, leaf_name, show, walk, TRANSPARENT, strip, origin_desc
 from .mir import callee_name, op_place, pl_local
 
 
@@ -40,13 +40,6 @@ def bool_taken(taken):
     if taken == "else:1":
         return False
     return None
-
-
-def strip(n):
-    """strip transparent wrappers (deref, clone, as_ref, copied...) from a node"""
-    while n[0] == "call" and short_callee(n[1]) in TRANSPARENT and len(n[2]) >= 1:
-        n = n[2][0]
-    return n
 
 
 ITER_START = {"iter", "into_iter", "iter_mut", "values", "keys", "values_mut", "drain", "chars", "lines", "split", "bytes"}
@@ -184,7 +177,7 @@ def rewrite(node, env, elem):
 
 def elem_node(chain):
     """pseudo-leaf for 'an element of the collection this chain iterates'"""
-    return ("elem", chain.source_name() or show(chain.source)[:60], tuple(chain.adaptors()))
+    return ("elem", chain.source_name() or origin_desc(strip(chain.source)), tuple(chain.adaptors()))
 
 
 # --------------------------------------------------------------------------- scopes (function + nested closures)
@@ -226,7 +219,7 @@ def norm_for_elem(node):
 
 def elem_of_chain(ch):
     """element node of a chain; if the chain maps through enumerate/zip etc. the adaptors are recorded"""
-    return ("elem", ch.source_name() or show(strip(ch.source))[:80], tuple(ch.adaptors()))
+    return ("elem", ch.source_name() or origin_desc(strip(ch.source)), tuple(ch.adaptors()))
 
 
 class Scope:
